@@ -28,6 +28,7 @@ def parseChatEvs : List String → List ChatEv
   | "V" :: a :: r :: c :: rest => .leave (num a) (num r) (num c) :: parseChatEvs rest
   | "R" :: a :: r :: c :: rest => .decline (num a) (num r) (num c) :: parseChatEvs rest
   | "S" :: a :: r :: c :: s :: rest => .setSubject (num a) (num r) (num c) (hexb s) :: parseChatEvs rest
+  | "E" :: l :: ac :: rest => .accessEdit (hexb l) (hexb ac) :: parseChatEvs rest
   | "M" :: a :: r :: c :: o :: m :: rest => .send (num a) (num r) (optNum c) (optHex o) (hexb m) :: parseChatEvs rest
   | _ => []
 
